@@ -129,6 +129,16 @@ def x_evm_watcher():
     if not re.search(r'blockNumberU := ev\.Number\.Uint64\(\)', src):
         raise Broken("scan: blockNumberU := ev.Number.Uint64() not found")
 
+    # ---------------------------------------------------------------- where the heads come from
+    if not re.search(r'useFinalizedBlocks := \(w\.chainID == vaa\.ChainIDEthereum && \(!w\.unsafeDevMode\)\)', src):
+        raise Broken("Run: `useFinalizedBlocks := (w.chainID == vaa.ChainIDEthereum && (!w.unsafeDevMode))` not found")
+    if not re.search(r'w\.ethConn, err = NewBlockPollConnector\(ctx, baseConnector, [^\n]*?, useFinalizedBlocks\)', src):
+        raise Broken("Run: NewBlockPollConnector(.., useFinalizedBlocks) not found")
+    if not re.search(r'headerSubscription, err := w\.ethConn\.SubscribeForBlocks\(ctx, headSink\)', src):
+        raise Broken("Run: heads are not taken from w.ethConn.SubscribeForBlocks")
+    if not re.search(r'block, err := w\.ethConn\.getBlock\(timeout, logger, nil, false\)', src):
+        raise Broken("getBlockNumber: w.ethConn.getBlock(timeout, logger, nil, false) not found")
+
     # ---------------------------------------------------------------- re-observation path
     m = re.search(r'case r := <-w\.obsvReqC:', src)
     if not m:
